@@ -1214,7 +1214,8 @@ impl<'a> BenchContext<'a> {
                     sum = sum.saturating_add(sample_count);
                 }
 
-                (sum / median_samples.len() as u128) as MaxCountUInt
+                sum.checked_div(median_samples.len() as u128)
+                    .unwrap_or_default() as MaxCountUInt
             };
 
             Some(StatsSet {
@@ -1258,10 +1259,14 @@ impl<'a> BenchContext<'a> {
             alloc_info.tallies.add_to_total(&mut alloc_total_tallies);
         }
 
-        let sample_size = f64::from(sample_size);
+        // Use 1 as the divisor when no samples were recorded, so that empty
+        // stats are 0 rather than `0.0 / 0.0`.
+        let sample_size = f64::from(sample_size.max(1));
+        let iter_count = total_count;
+        let total_count = total_count.max(1);
         Stats {
             sample_count: sample_count as u32,
-            iter_count: total_count,
+            iter_count,
             time: StatsSet {
                 fastest: min_duration,
                 slowest: max_duration,
